@@ -27,6 +27,49 @@ Proof.
   destruct (run E D apps st evs) as [[stf rec] num]. exact (proj1 H Hs).
 Qed.
 
+From Lospan Require Import Model.Steps Proof.SchedDataProof.
+(* Concurrent clause ("however the copies arrive ... concurrently through several gateways"). ANY number of
+   handlers working at the same time on frames that carry one counter (copies of one uplink), interleaved
+   operation by operation in EVERY order and cut after any number of operations, on a strict-counter device:
+   the frame is recorded at most once (and answered at most once, C09). *)
+Theorem C03_concurrent_copies_recorded_once :
+  forall (E D : list N -> list N -> list N) apps c,
+    (c < 65535)%N ->
+    forall (copies : list (frame * rxpacket * nat * N)), Forall (fun x => fcnt (fst (fst (fst x))) = c) copies ->
+    forall st r, ds_row st = Some r -> d_relaxed r = false -> fb_down st ->
+    forall sched fuel,
+      let res := interleaveN apps sched fuel st
+                   (map (fun x => uplink_prog E D (fst (fst (fst x))) (snd (fst (fst x))) (snd (fst x)) (snd x)) copies) [] in
+      (length (ds_inbox (fst res)) <= S (length (ds_inbox st)))%nat /\ (length (downs (snd res)) <= 1)%nat.
+Proof. exact concurrent_copies_recorded_and_answered_once. Qed.
+(* ANY handlers of ANY frames of one device (copies, consecutive counters handled out of order, unrelated ones),
+   every schedule: the stored expected counter never moves back (so a frame that was accepted stays refused),
+   the session is untouched. (The counters of the answers: C07.) *)
+Theorem C03_concurrent_counter_never_moves_back :
+  forall (E D : list N -> list N -> list N) apps
+    (ups : list (frame * rxpacket * nat * N)), Forall (fun x => (fcnt (fst (fst (fst x))) < 65535)%N) ups ->
+    forall st r, ds_row st = Some r -> fb_down st -> (d_fdn r < 65536)%N -> (d_fdn r + N.of_nat (length ups) <= 65536)%N ->
+    forall sched fuel,
+      let res := interleaveN apps sched fuel st
+                   (map (fun x => uplink_prog E D (fst (fst (fst x))) (snd (fst (fst x))) (snd (fst x)) (snd x)) ups) [] in
+      (exists r', ds_row (fst res) = Some r' /\ same_session r r' /\ (d_fup r <= d_fup r')%N) /\
+      NoDup (counters (snd res)) /\ Forall (fun x => (d_fdn r <= x)%N) (counters (snd res)).
+Proof. exact concurrent_uplinks_counters. Qed.
+(* the two-handler interleaving the forced-schedule correspondence executes on the real pipeline is the
+   two-element case of interleaveN, so both theorems speak about it: *)
+Theorem C03_two_handlers_is_an_instance :
+  forall apps fuel sched st p q acc,
+    interleave apps sched fuel st p q acc = interleaveN apps (sched2 sched) fuel st [p; q] acc.
+Proof. exact interleave_is_interleaveN. Qed.
+Theorem C03_two_copies_recorded_once :
+  forall (E D : list N -> list N -> list N) apps f1 rx1 n1 now1 f2 rx2 n2 now2,
+    (fcnt f1 < 65535)%N -> fcnt f2 = fcnt f1 ->
+    forall st r, ds_row st = Some r -> d_relaxed r = false -> fb_down st ->
+    forall sched fuel,
+      let res := interleave apps sched fuel st (uplink_prog E D f1 rx1 n1 now1) (uplink_prog E D f2 rx2 n2 now2) [] in
+      (length (ds_inbox (fst res)) <= S (length (ds_inbox st)))%nat /\ (length (downs (snd res)) <= 1)%nat.
+Proof. exact two_copies_recorded_and_answered_once. Qed.
+
 From Lospan Require Import Gen.Consts Model.Server Proof.ProjectionProof.
 (* The per-device step these theorems (and those of C06-C10) speak about IS the server model's global step - the
    function the history correspondence runs against the real pipeline - whenever exactly one stored device
@@ -47,3 +90,7 @@ Print Assumptions C03_step.
 Print Assumptions C03_seq.
 Print Assumptions C03_global_step_is_device_step.
 Print Assumptions C03_table_stays_keyed.
+Print Assumptions C03_concurrent_copies_recorded_once.
+Print Assumptions C03_concurrent_counter_never_moves_back.
+Print Assumptions C03_two_handlers_is_an_instance.
+Print Assumptions C03_two_copies_recorded_once.
